@@ -465,6 +465,15 @@ static int deregister_src(m_mod_t *mod, m_src_types type, void *src_data, m_src_
     default:
         return -EINVAL;
     }
+    /*
+     * Stop polling it right now: an event being processed may keep the source alive
+     * past this call (and past its module), and its dtor only deals with running modules.
+     */
+    ev_src_t *src = m_bst_find(mod->srcs[type], &key);
+    if (src) {
+        M_MOD_CTX(mod);
+        poll_set_new_evt(&c->ppriv, src, RM);
+    }
     return m_bst_remove(mod->srcs[type], &key);
 }
 
